@@ -575,7 +575,9 @@ class DBusObject :
         r = {}
 
         def addp(p):
-            if p.iprop.access != 'write':
+            # classes are visited most-derived first: a definition further
+            # up the MRO must not replace the one already found
+            if p.iprop.access != 'write' and p.pname not in r:
                 v = getattr(self, p.attr_name)
                 if p.iprop.sig in marshal.variantClassMap:
                     v = marshal.variantClassMap[p.iprop.sig](v)
@@ -588,7 +590,6 @@ class DBusObject :
                 if ifc:
                     for p in ifc.properties.values():
                         addp(p)
-                    break
 
         else:
             for cache in self._iterIFaceCaches():
